@@ -113,7 +113,7 @@ func gen(r *verifsim.Rng, tier string) (any, hx.Sched) {
 		"getclass_ci", "getfunc_bs", "loadpkg_bs", "getconst_bs", "addns", "findfile", "regreflect", "newobj", "newobj",
 		// definitions made the way request handlers make them: by parsing source on a parser clone
 		// (registration at parse time), and through script builtins executed on the shared VM
-		"pclass", "piface", "pfunc", "sdefine", "sgetconst", "sclassexists", "sfuncexists", "sifaceexists",
+		"pclass", "piface", "pfunc", "pclass_sf", "piface_sf", "sdefine", "sgetconst", "sclassexists", "sfuncexists", "sifaceexists",
 		// a script requires a file (require_once) and uses what the file declares straight away
 		"srequire", "srequire",
 		// a script's top-level variables are registered as globals in one call (a file with many of them)
@@ -393,6 +393,14 @@ func exec(t *testing.T, x any, s hx.Sched) *hx.Outcome {
 						if strings.HasPrefix(ret, "dup:") {
 							ret = "dup"
 						}
+					case "pclass_sf", "piface_sf":
+						// the declaration comes from ONE file per name (whoever parses it): declaring a name again from
+						// the file that declared it is a re-import and is skipped without an error, whatever the kind
+						decl := map[string]string{"pclass_sf": "class %s { }", "piface_sf": "interface %s { }"}[op.K]
+						ret = parseOn(ti, "<?php\n"+fmt.Sprintf(decl, op.N)+"\n", "/c10/sf-"+op.N+".php")
+						if strings.HasPrefix(ret, "dup:") {
+							ret = "dup"
+						}
 					case "sdefine":
 						srets[ti] = ""
 						r0 := parseOn(ti, fmt.Sprintf("<?php\ntry { define(\"%s\", \"%s\"); __r(%d, \"ok\"); } catch (\\Throwable $e) { __r(%d, \"dup\"); }\n", op.N, id, ti, ti), "/c10s/"+id+".php")
@@ -575,6 +583,7 @@ func okDup(ctl data.Control) string {
 type in struct {
 	kind string
 	id   string // unique tag of the object being registered
+	name string
 }
 
 func baseKind(k string) string {
@@ -593,6 +602,10 @@ func baseKind(k string) string {
 		return "addclass"
 	case "piface":
 		return "addiface"
+	case "pclass_sf":
+		return "addclass_sf"
+	case "piface_sf":
+		return "addiface_sf"
 	case "pfunc":
 		return "addfunc"
 	case "sdefine":
@@ -604,7 +617,7 @@ func baseKind(k string) string {
 func partitionKey(p hx.HOp) string {
 	name, _, _ := strings.Cut(p.Arg, "#")
 	switch baseKind(p.Kind) {
-	case "addclass", "addiface", "getclass", "getiface", "loadpkg", "newobj", "sclassexists", "sifaceexists":
+	case "addclass", "addiface", "addclass_sf", "addiface_sf", "getclass", "getiface", "loadpkg", "newobj", "sclassexists", "sifaceexists":
 		return "type:" + name
 	case "addfunc", "getfunc", "sfuncexists":
 		return "func:" + name
@@ -632,6 +645,19 @@ var regModel = porcupine.Model{
 		i := input.(in)
 		out := output.(string)
 		switch i.kind {
+		case "addclass_sf", "addiface_sf":
+			pre, tag := "C:", "sf-"+i.name
+			if i.kind == "addiface_sf" {
+				pre = "I:"
+			}
+			same := strings.HasSuffix(st, ":"+tag) // already declared from this very file (as a class or as an interface)
+			if out == "ok" {
+				if st == "" {
+					return true, pre + tag
+				}
+				return same, st // re-import: accepted, nothing changes
+			}
+			return st != "" && !same, st
 		case "addclass", "addiface":
 			pre := "C:"
 			if i.kind == "addiface" {
@@ -728,7 +754,7 @@ func evaluate(o *hx.Outcome, ops []hx.HOp) {
 				overlapSame++
 			}
 		}
-		parts[k] = append(parts[k], porcupine.Operation{ClientId: p.Task, Input: in{baseKind(p.Kind), id}, Output: p.Ret, Call: p.Call, Return: p.Return})
+		parts[k] = append(parts[k], porcupine.Operation{ClientId: p.Task, Input: in{baseKind(p.Kind), id, strings.SplitN(p.Arg, "#", 2)[0]}, Output: p.Ret, Call: p.Call, Return: p.Return})
 	}
 	o.Probe("add_overlaps_op_on_same_name", int64(overlapSame))
 	for _, k := range keys {
